@@ -252,6 +252,13 @@ def run(ctx):
                 ctx.check(ok, "R06.4", "%s|estimate-of-stored-hash" % n, "sampled keys are estimated from the hash recorded with their weight", f.where(b), fmt(arg))
     ctx.floor("R06.4", "estimator invocations in the sampler", n_est, 1)
 
+    # ---- R06.8 (= C16 R16.7) the admission refusals are decided by the admission function alone: a second, different test
+    # elsewhere (an API "fast path" refusing `weight + overhead > max`) rejects puts that fit
+    import c16
+    for o in ctx.own_of("c16"):
+        if o["rule"] == "R16.7" and "refusal-built-only-in-admission" in o["key"]:
+            ctx._add(o["status"], "R06.8", o["key"], o["desc"] + " [the decision table of R06.1 is the only place a put is refused for weight or space]", o["where"], o["detail"])
+
     # ---- R06.5 sampler discipline ------------------------------------------------------------------------
     # judged on the paths of the sampler's own functions with its private helpers inlined (a per-key `include(pair)` helper is
     # part of the refill loop)
